@@ -91,15 +91,18 @@ fn pair<C: CellType>(m: u128, inc: u128, t: &mut [Tally; 2], w: &str) {
             let want = vec![k as u8, (3 * k) as u8];
             // every pair at -O2; the other levels and the bytecode interpreter on every eighth pair
             let all_levels = bits > 8 || (m * 7 + inc) % 8 == 0;
+            // (limited runs with a budget no correct program can exhaust: a wrong trip count may
+            // well mean a loop that never ends, which must be a failed check, not a hung test)
+            let budget = Some(10 * k as usize + 1000);
             for opt in 1..=3 {
                 if opt != 2 && !all_levels {
                     continue;
                 }
-                let (o1, _) = run::<C, IrInterpreter<C>>(code, opt, None);
-                t[0].check(o1 == want, || format!("{} start {} increment {} (least k = {}): IR interpreter -O{} prints {:?}, expected {:?}", w, m, inc, k, opt, o1, want));
+                let (o1, f1) = run::<C, IrInterpreter<C>>(code, opt, budget);
+                t[0].check(f1 && o1 == want, || format!("{} start {} increment {} (least k = {}): IR interpreter -O{} finished={} prints {:?}, expected {:?}", w, m, inc, k, opt, f1, o1, want));
                 if opt == 2 && all_levels {
-                    let (o2, _) = run::<C, BcInterpreter<C>>(code, opt, None);
-                    t[0].check(o2 == want, || format!("{} start {} increment {} (least k = {}): bytecode interpreter -O{} prints {:?}, expected {:?}", w, m, inc, k, opt, o2, want));
+                    let (o2, f2) = run::<C, BcInterpreter<C>>(code, opt, budget);
+                    t[0].check(f2 && o2 == want, || format!("{} start {} increment {} (least k = {}): bytecode interpreter -O{} finished={} prints {:?}, expected {:?}", w, m, inc, k, opt, f2, o2, want));
                 }
             }
         }
